@@ -4,9 +4,10 @@ deliveries (/tmp/seedout/Cxx/{patchN.diff,demoN_test.go,metaN.json}) and the eva
 (/tmp/seedeval*/Cxx-N.json written by tools/evalseed.py; later directories override earlier ones for 'detection')."""
 import glob, json, os, shutil, sys
 # (delivery directory, evaluation directories in order, offset added to the sub-agent's change number)
-ROUNDS = [('/tmp/seedout', [d for d in sorted(glob.glob('/tmp/seedeval*')) if '_r2' not in d and '_r3' not in d], 0),
+ROUNDS = [('/tmp/seedout', [d for d in sorted(glob.glob('/tmp/seedeval*')) if '_r2' not in d and '_r3' not in d and '_r4' not in d], 0),
           ('/tmp/seedout2', sorted(glob.glob('/tmp/seedeval_r2*')), 2),
-          ('/tmp/seedout3', sorted(glob.glob('/tmp/seedeval_r3*')), 4)]
+          ('/tmp/seedout3', sorted(glob.glob('/tmp/seedeval_r3*')), 4),
+          ('/tmp/seedout4', sorted(glob.glob('/tmp/seedeval_r4*')), 6)]
 OUT = '/verif/seeded'
 os.makedirs(OUT, exist_ok=True)
 rows = []
